@@ -668,6 +668,9 @@ def conformWith (envB filesB devsB input traceB : Bytes)
           let tzB : Bytes := tzW.getD []
           let orc : Model.EvalOracles :=
             { rx := rxFFI, strptime := strptimeEnv, zoneName := (zoneEnv env.now), timeFormat := (timeFormatEnv tzB) }
+          -- the ghost allowance of the `readdir` loops: the length of the observed trace always suffices
+          -- (`C04_fuel_suffices_conform`), so a `done` answer is never a walk truncated by the model's fuel
+          let env : Model.PEnv := { env with extraFuel := trace.length }
           match mk env (confok == "1") orc files with
           | none => "BADSCENARIO"
           | some (prog, discards) =>
@@ -680,6 +683,8 @@ def conformWith (envB filesB devsB input traceB : Bytes)
             let tail := match rest with
               | [] => ""
               | x :: _ => s!" EXTRA {rest.length} next={Driver.callStr x.1}"
+            -- a `readdir` loop of the model ran out of fuel: from there on the model's run is a truncation of mdsort's
+            if st.fuelOut then s!"FUELOUT exit={status} calls={w.trace.length}{tail}" else
             s!"OK exit={status} reject={st.reject}{tail} FS {fsDump w} LOG {String.intercalate "," (st.log.map Driver.hex)}"
           | .diverge pos exp got =>
             s!"DIVERGE pos={pos} expected=[{Driver.callStr exp}] got=[{match got with | some c => Driver.callStr c | none => "end-of-trace"}]"
